@@ -25,7 +25,7 @@ pub fn def() -> PropDef {
     PropDef {
         id: "C16",
         level: "model_checking",
-        rule: "explicit-state search over a store holding 5 documents — three whose namespace ids are byte-order neighbours (..FE, ..FF, successor; populated through the raw-put hook with read-only capability) and two real-key documents — with events {write entry 1/2, delete prefix, register peer, set policy, open, close, remove, re-create} per document, from the empty and from a fully populated initial state; after every event every document's complete observable content is compared with a per-document reference, removal must be refused iff open, and content_hashes() must equal the hashes of all entries held; canonical state = rendering of the complete observable store content; non-trivial = histories containing a removal of a non-empty document",
+        rule: "explicit-state search over a store holding 5 documents — three whose namespace ids are byte-order neighbours (..FE, ..FF, successor; populated through the raw-put hook with read-only capability) and two real-key documents — with events {write entry 1/2, delete prefix, register peer, set policy, open, close, remove, re-create} per document, from the empty and from a fully populated initial state; after every event every document's complete observable content is compared with a per-document reference, removal must be refused iff open, and content_hashes() must equal the hashes of all entries held; a second family spawns a real Engine with a garbage-collection protect handler and, after every step of three scripts (0..N writes, prefix deletions, duplicate contents, removals; N = 140 quick / 600 thorough, crossing every channel capacity on the way), calls the collector's callback and requires the live set it receives to equal the hashes held; canonical state = rendering of the complete observable store content; non-trivial = histories containing a removal of a non-empty document",
         assumptions: &["entries of the neighbouring-id documents carry arbitrary signatures (written below the validation layer), which the properties observed here never inspect"],
         bound: |t| match t {
             Tier::Quick => json!({"from_empty": "depth <= 3", "from_populated": "depth <= 4", "events": 41}),
@@ -461,6 +461,195 @@ fn exec(
         })
 }
 
+// ---------------------------------------------------------------------------------------------
+// Family "gc_protect": the hashes the *engine* hands to the blob store's garbage collector.
+//
+// The last sentence of the property is about what the store reports "for garbage-collection
+// protection"; the path from `Store::content_hashes` to the collector goes through the engine's
+// protect task (src/engine.rs `gc_protect_task`: store actor -> bounded channel -> `ProtectCb`).
+// A real `Engine` is spawned on a single-threaded runtime (one deterministic schedule: the task
+// runs until its channel is full, then the callback drains it) and a script of writes, prefix
+// deletions, duplicate contents and document removals is applied through the engine's store
+// handle; after *every* step the collector's callback is invoked exactly like the collector
+// does, and the live set it is given must equal the hashes of all entries held (computed from
+// the store's own queries and from the reference model), for every size 0..=N of the store —
+// which crosses the capacity of every channel on the way.
+
+#[derive(Debug, Clone, Copy, PartialEq, Eq, Serialize, Deserialize)]
+enum GcStep {
+    /// write key `k{i:04}` in document d with content i (distinct hash per i)
+    Write(u8, u16),
+    /// write key `d{i:04}` in document d with the same content as `Write(_, i)` (duplicate hash)
+    Dup(u8, u16),
+    /// delete every key of document d starting with `k{p:03}` (ten keys)
+    DelPrefix(u8, u16),
+    /// close and remove document d
+    Remove(u8),
+}
+
+fn gc_hash(i: u16) -> iroh_blobs::Hash {
+    iroh_blobs::Hash::new(format!("gc content {i}"))
+}
+
+fn gc_scripts(quick: bool) -> Vec<(&'static str, Vec<GcStep>)> {
+    let n: u16 = if quick { 140 } else { 600 };
+    let mut one = vec![];
+    for i in 0..n {
+        one.push(GcStep::Write(0, i));
+    }
+    for p in 0..(n / 10) {
+        one.push(GcStep::DelPrefix(0, p));
+    }
+    let mut two = vec![];
+    for i in 0..n {
+        two.push(GcStep::Write((i % 2) as u8, i));
+    }
+    two.push(GcStep::Remove(0));
+    for i in n..n + 70 {
+        two.push(GcStep::Write(1, i));
+    }
+    two.push(GcStep::Remove(1));
+    let mut dups = vec![];
+    for i in 0..n / 2 {
+        dups.push(GcStep::Write(0, i));
+        dups.push(GcStep::Dup(1, i));
+    }
+    dups.push(GcStep::Remove(0));
+    for p in 0..(n / 20) {
+        dups.push(GcStep::DelPrefix(1, p));
+    }
+    vec![("one_document", one), ("two_documents", two), ("duplicate_contents", dups)]
+}
+
+struct GcNode {
+    engine: iroh_docs::engine::Engine,
+    cb: iroh_blobs::store::ProtectCb,
+    _blobs: iroh_blobs::store::mem::MemStore,
+}
+
+async fn gc_node() -> anyhow::Result<GcNode> {
+    use iroh::endpoint::presets;
+    let ep = iroh::Endpoint::builder(presets::Minimal)
+        .secret_key(iroh::SecretKey::from_bytes(&[0x31; 32]))
+        .bind()
+        .await
+        .map_err(|e| anyhow::anyhow!("bind: {e}"))?;
+    let gossip = iroh_gossip::net::Gossip::builder().spawn(ep.clone());
+    let blobs = iroh_blobs::store::mem::MemStore::new();
+    let downloader = blobs.downloader(&ep);
+    let mut store = iroh_docs::store::Store::memory();
+    store.import_namespace(Capability::Write(ns_secret(0)))?;
+    store.import_namespace(Capability::Write(ns_secret(1)))?;
+    store.import_author(author(0))?;
+    let (handler, cb) = iroh_docs::engine::ProtectCallbackHandler::new();
+    let engine = iroh_docs::engine::Engine::spawn(
+        ep,
+        gossip,
+        store,
+        (*blobs).clone(),
+        downloader,
+        iroh_docs::engine::DefaultAuthorStorage::Mem,
+        Some(handler),
+    )
+    .await?;
+    for d in 0..2u8 {
+        engine.sync.open(ns_id(d), Default::default()).await?;
+    }
+    Ok(GcNode {
+        engine,
+        cb,
+        _blobs: blobs,
+    })
+}
+
+/// Runs `script[..upto]`, checking after every step; returns (checks made, largest live set).
+fn gc_run(name: &str, script: &[GcStep], report: &mut Report, ordinal: u64) -> (u64, u64) {
+    use std::collections::BTreeMap;
+    set_clock(NOW);
+    let mut checks = 0u64;
+    let mut largest = 0u64;
+    let res: anyhow::Result<()> = crate::sut::block_on(async {
+        let node = gc_node().await?;
+        let sync = &node.engine.sync;
+        // reference: per document key -> hash
+        let mut model: [BTreeMap<Vec<u8>, iroh_blobs::Hash>; 2] = [BTreeMap::new(), BTreeMap::new()];
+        let mut removed = [false; 2];
+        for (si, step) in std::iter::once(None).chain(script.iter().map(Some)).enumerate() {
+            // every step is strictly newer than the ones before it, so that a prefix deletion
+            // removes everything below the prefix
+            set_clock(NOW + si as u64);
+            match step {
+                None => {}
+                Some(GcStep::Write(d, i)) | Some(GcStep::Dup(d, i)) => {
+                    let key = match step.unwrap() {
+                        GcStep::Write(..) => format!("k{i:04}").into_bytes(),
+                        _ => format!("d{i:04}").into_bytes(),
+                    };
+                    let h = gc_hash(*i);
+                    sync.insert_local(ns_id(*d), author_id(0), key.clone().into(), h, 7).await?;
+                    model[*d as usize].insert(key, h);
+                }
+                Some(GcStep::DelPrefix(d, p)) => {
+                    let prefix = format!("k{p:03}").into_bytes();
+                    sync.delete_prefix(ns_id(*d), author_id(0), prefix.clone().into()).await?;
+                    let m = &mut model[*d as usize];
+                    m.retain(|k, _| !k.starts_with(&prefix));
+                    m.insert(prefix, iroh_blobs::Hash::EMPTY);
+                }
+                Some(GcStep::Remove(d)) => {
+                    sync.close(ns_id(*d)).await?;
+                    sync.drop_replica(ns_id(*d)).await?;
+                    model[*d as usize].clear();
+                    removed[*d as usize] = true;
+                }
+            }
+            // what the collector is told
+            let mut live = std::collections::HashSet::new();
+            let outcome = (node.cb)(&mut live).await;
+            let live: BTreeSet<[u8; 32]> = live.into_iter().map(|h| *h.as_bytes()).collect();
+            // what is held, by the reference and by the store's own query
+            let want: BTreeSet<[u8; 32]> = model.iter().flat_map(|m| m.values().map(|h| *h.as_bytes())).collect();
+            let mut held: BTreeSet<[u8; 32]> = BTreeSet::new();
+            for d in 0..2u8 {
+                if removed[d as usize] {
+                    continue;
+                }
+                for e in crate::sut::handle_get_many(sync, ns_id(d), iroh_docs::store::Query::all().include_empty().build()).await.map_err(anyhow::Error::msg)? {
+                    held.insert(*e.content_hash().as_bytes());
+                }
+            }
+            checks += 1;
+            largest = largest.max(want.len() as u64);
+            let continue_ = matches!(outcome, iroh_blobs::store::ProtectOutcome::Continue);
+            if live != want || held != want || !continue_ {
+                report.violation(
+                    "gc_protection_set_equals_hashes_held",
+                    json!({"engine_path": true, "collector_told_to_continue": continue_, "missing": want.difference(&live).count(), "surplus": live.difference(&want).count()}),
+                    json!({"family": "gc_protect", "script": name, "upto": si}),
+                    format!(
+                        "script {name}, after step {si} ({step:?}): held {} distinct hashes (store query: {}), the collector was given {} ({} held ones missing, {} not held) and outcome continue={continue_}",
+                        want.len(), held.len(), live.len(), want.difference(&live).count(), live.difference(&want).count()
+                    ),
+                    ordinal,
+                );
+                break;
+            }
+        }
+        let _ = node.engine.shutdown().await;
+        Ok(())
+    });
+    if let Err(e) = res {
+        report.violation(
+            "gc_protection_set_equals_hashes_held",
+            json!({"engine_path": true, "error": true}),
+            json!({"family": "gc_protect", "script": name, "upto": script.len()}),
+            format!("script {name}: {e:#}"),
+            ordinal,
+        );
+    }
+    (checks, largest)
+}
+
 fn run(ctx: &Ctx, report: &mut Report) {
     crate::util::silence_panics();
     let evs = events();
@@ -512,9 +701,57 @@ fn run(ctx: &Ctx, report: &mut Report) {
         report.nontrivial += nontrivial;
         report.count(&format!("states_{family}"), stats.states);
     }
+    // the engine's path to the garbage collector
+    for (i, (name, script)) in gc_scripts(ctx.quick()).into_iter().enumerate() {
+        if !ctx.mine(i as u64) {
+            continue;
+        }
+        let mut local = Report::default();
+        match catch(|| {
+            let r = gc_run(name, &script, &mut local, i as u64);
+            (r, local)
+        }) {
+            Err(p) => report.violation(
+                "no_panic",
+                json!({"engine_path": true}),
+                json!({"family": "gc_protect", "script": name, "upto": script.len()}),
+                format!("panic: {p}"),
+                i as u64,
+            ),
+            Ok(((checks, largest), local)) => {
+                report.merge(local);
+                report.evaluations += checks;
+                report.nontrivial += checks;
+                report.count("gc_protect_checks", checks);
+                report.maximum("gc_protect_largest_live_set", largest);
+                report.sample(|| json!({"family": "gc_protect", "script": name, "steps": script.len()}));
+            }
+        }
+    }
 }
 
 fn replay(case: &Value) -> anyhow::Result<(bool, String)> {
+    if case["family"] == "gc_protect" {
+        let name = case["script"].as_str().unwrap_or("");
+        let upto = case["upto"].as_u64().unwrap_or(u64::MAX) as usize;
+        let mut local = Report::default();
+        for quick in [true, false] {
+            if let Some((n, script)) = gc_scripts(quick).into_iter().find(|(n, _)| *n == name) {
+                let script = &script[..upto.min(script.len())];
+                if catch(|| gc_run(n, script, &mut local, 0)).is_err() {
+                    return Ok((true, format!("panic while replaying gc script {name}")));
+                }
+                if !local.violations.is_empty() {
+                    break;
+                }
+            }
+        }
+        let mut out = format!("gc_protect script {name} up to step {upto}\n");
+        for v in &local.violations {
+            out.push_str(&format!("FAILED {}: {}\n", v.oracle, v.detail));
+        }
+        return Ok((!local.violations.is_empty(), out));
+    }
     let pre: Vec<Ev> = serde_json::from_value(case["pre"].clone())?;
     let hist: Vec<Ev> = serde_json::from_value(case["hist"].clone())?;
     let mut local = Report::default();
